@@ -66,6 +66,7 @@ type c03JailArg struct {
 type c03JailResult struct {
 	RecvErr   string   `json:"recverr"`
 	Stuck     bool     `json:"stuck"`
+	Dump      string   `json:"dump,omitempty"` // blocked goroutines when stuck
 	Reqs      []uint32 `json:"reqs"`
 	FinSeen   bool     `json:"finseen"`
 	Sent      int      `json:"sent"`
@@ -129,6 +130,7 @@ func jailReceive(raw json.RawMessage) (any, error) {
 	res := &c03JailResult{}
 	if dump := h.WaitOrStuck(done, pair); dump != "" {
 		res.Stuck = true
+		res.Dump = dump
 		pair.S.Break(nil)
 		pair.R.Break(nil)
 		pair.S.Cancel()
@@ -237,6 +239,20 @@ func genC03(t *rapid.T) *c03Case {
 		c.Dst.Normalize()
 	}
 	c.Mode = rapid.SampledFrom([]string{"normal", "normal", "merge", "metaonly", "merge+metaonly"}).Draw(t, "mode")
+	// a selected hard link whose link source lies below a directory the selector
+	// leaves out, while the destination holds an out-pointing symlink under that
+	// directory's name (the stream itself is legal: "m", "m/b", "ma" -> "m/b")
+	if rapid.IntRange(0, 7).Draw(t, "unfwdlink") == 0 {
+		c.Mode = rapid.SampledFrom([]string{"metaonly", "merge+metaonly", "merge+metaonly"}).Draw(t, "unfwdmode")
+		src := rapid.SampledFrom([]string{"b", "c", "l"}).Draw(t, "unfwdsrc")
+		c.Stats = append(c.Stats,
+			hStat{Path: "m", Mode: uint32(os.ModeDir | 0o755)},
+			hStat{Path: h.BStr("m/" + src), Mode: 0o644, Size: 5, Seed: 77},
+			hStat{Path: "ma", Mode: 0o666, Link: h.BStr("m/" + src)})
+		c.Dst.Nodes = append(c.Dst.Nodes, h.Node{Path: "m", Kind: h.KSymlink, Perm: 0o777, Target: rapid.SampledFrom([]string{"/outside/dir", "../../outside/dir"}).Draw(t, "unfwdtarget")})
+		c.Dst.Normalize()
+		c.Mutations = append(c.Mutations, "link-source-below-unselected-dir")
+	}
 	c.Capacity = rapid.SampledFrom([]int{0, 8, 64}).Draw(t, "cap")
 	c.Script.Chunk = []int{rapid.SampledFrom([]int{7, 4096, 32768}).Draw(t, "chunk")}
 	c.Script.Choices = rapid.SliceOfN(rapid.IntRange(0, 5), 1, 6).Draw(t, "choices")
@@ -295,7 +311,15 @@ func genC03(t *rapid.T) *c03Case {
 			}
 		case 6, 7: // hard link to something it must not name (an escaping or unknown name, or itself)
 			if j := pick(); j >= 0 && os.FileMode(c.Stats[j].Mode)&os.ModeType == 0 {
-				c.Stats[j].Link = h.BStr(rapid.SampledFrom([]string{"../sibling", "/outside/secret", "../../outside/secret", "nonexistent", "zzz-later", "..", "a/../../sibling", "/parent/sibling", string(c.Stats[j].Path), string(c.Stats[j].Path)}).Draw(t, li+"hl"))
+				names := []string{"../sibling", "/outside/secret", "../../outside/secret", "nonexistent", "zzz-later", "..", "a/../../sibling", "/parent/sibling", string(c.Stats[j].Path), string(c.Stats[j].Path)}
+				// escaping spellings that end in the name of a file this stream did send
+				for k := 0; k < j; k++ {
+					if m := os.FileMode(c.Stats[k].Mode); m&os.ModeType == 0 && c.Stats[k].Link == "" {
+						p := string(c.Stats[k].Path)
+						names = append(names, "../"+p, "../../outside/dir/"+p, "x/../../"+p, "./"+p, p+"/.", "/parent/"+p)
+					}
+				}
+				c.Stats[j].Link = h.BStr(rapid.SampledFrom(names).Draw(t, li+"hl"))
 				c.Mutations = append(c.Mutations, fmt.Sprintf("hardlink[%d]->%q", j, c.Stats[j].Link))
 			}
 		case 8: // hard link with a special mode bit (socket/device) and an escaping name
@@ -427,6 +451,7 @@ func c03Check(env *h.Env, c *c03Case) error {
 	}
 	for p, v := range map[string]string{"outside/secret": "top secret", "outside/dir/inner": "inner secret", "parent/sibling": "precious sibling",
 		// names the destination trees use too: a delete that goes through a link finds something
+		"parent/a": "parent a", "parent/b": "parent b", "parent/c": "parent c", "parent/ab": "parent ab", "parent/d": "parent d", "parent/l": "parent l",
 		"outside/dir/a": "outside a", "outside/dir/b": "outside b", "outside/dir/c": "outside c", "outside/dir/ab": "outside ab", "outside/dir/d": "outside d", "outside/dir/l": "outside l"} {
 		if err := os.WriteFile(filepath.Join(jail, p), []byte(v), 0o600); err != nil {
 			return h.Infra(err)
